@@ -249,8 +249,32 @@ func cacheExec(c *Ctx, op string) {
 		// wait until it blocks at its first point (cache.lookup) or finishes (usage errors)
 		waitFor(sc, sp)
 	}
+	// a committed shelf is never deleted or replaced: its directory object stays the same from the moment it is visible
+	shelfIno := map[string]uint64{}
+	watchShelves := func(when string) {
+		now := map[string]uint64{}
+		ms, _ := filepath.Glob(filepath.Join(cache, "*", "fileset", "*", "*", "*"))
+		for _, m := range ms {
+			var st syscall.Stat_t
+			if syscall.Lstat(m, &st) == nil {
+				now[m] = st.Ino
+			}
+		}
+		for m, ino := range shelfIno {
+			if n, ok := now[m]; !ok {
+				c.PropFail("shelf-replaced", fmt.Sprintf("a committed shelf disappeared %s: %s", when, strings.TrimPrefix(m, cache)), op)
+			} else if n != ino {
+				c.PropFail("shelf-replaced", fmt.Sprintf("a committed shelf was deleted and replaced by another directory %s (a crash in between leaves a partial or no shelf, a reader in between sees one): %s", when, strings.TrimPrefix(m, cache)), op)
+			}
+		}
+		for m, n := range now {
+			shelfIno[m] = n
+		}
+	}
+	watchShelves("before the run")
 	var modelSched []string
 	step := func(pid int) {
+		defer watchShelves(fmt.Sprintf("during a step of unpacker %d", pid))
 		sp := sps[pid]
 		modelSched = append(modelSched, fmt.Sprint(pid))
 		if sp.finished {
